@@ -219,6 +219,10 @@ def run(rep: Report, tier: str) -> None:
     # the predicate is evaluated for each fraction from its own two timestamps: no memoisation keyed by fractions (their equality is the pair of row ids)
     from .c17 import check_caches
 
+    from . import c11
+
+    rh = rep.rule("C05.h", "both timestamps the flag is computed from are the spreadsheet's instants: the parser's crypto-fee split rebuilds the lot with the row's exact timestamp (C11.e restated)", floor=20)
+    c11.check_split(rep, rh)
     rf = rep.rule("C05.f", "the long/short predicate and its inputs are not memoised by a key coarser than the fraction (row ids collide across assets)", floor=0)
     if check_caches(rep, rf, m, ("rp2.gain_loss", "rp2.computed_data", "rp2.abstract_transaction", "rp2.in_transaction", "rp2.out_transaction", "rp2.intra_transaction")) == 0:
         rep.ok(rf, "no functools cache in the modules that compute or carry the flag")
